@@ -41,6 +41,13 @@ def cases(rng, tier):
             b = a + rng.randint(0, 2)
         yield "paranoia %s %d %d %d" % (w, acct, a, b), "paranoia"
     yield from _seq_cases(rng, tier)
+    # intervals at and across 2^31 (the command line accepts address indexes up to 2^32 - 2, known finding K2 of C20:
+    # such rows are derived from the PRIVATE key only) — through the filter function and through the CLI with --paranoia
+    from .c20 import enc, SEED
+    for a, b in ((H - 2, H + 2), (H, H + 2), (H - 1, H), (2 ** 32 - 4, 2 ** 32 - 2)):
+        yield "paranoia seedb:%s:0 0 %d %d" % (SEED, a, b), "paranoia-hardened-boundary"
+        yield "cli absent %s %s" % (hx(bytes(40)), enc(["--paranoia", "--interval", str(a), str(b), "from-bip39-seed", SEED])), \
+            "paranoia-cli-hardened-boundary"
     # the filtered report on the routes that actually leave the process: the text printed by pprint, the file written
     # by export_wallet, the json() text — every row count incl. the empty interval, several indents
     for ln in ([0, 0, 1, 2, 4] if tier == "quick" else list(range(0, 9)) * 3):
